@@ -215,8 +215,13 @@ def install(g, pid, *, text, note, technique, quick, thorough, mons=None, forces
     OPS_NOTE = (" The per-gene arithmetic of the operators and samplers (GaussianMutation, UniformMutation, ArithmeticCrossover, the DE donors, SHADE's current-to-pbest donor, Crossover, the LHS / "
                 "Sobol scaling, sample_normal's membership test) is translated on every check (coq/Gen/GenOps.v, hv/translate/ops_py.py: numpy's elementwise expression as a binary64 function of "
                 "one gene) and proved equal to the operator model the theorems are about (Proofs/GenEquivOps.v).")
+    CTOR_NOTE = (" The constructors (AbstractDeme.__init__, the __init__ of the seven deme classes, Individual.__init__ / evaluate / evaluate_population / create_population, "
+                 "init_from_config, DemeTree.__init__) are translated on every check (coq/Gen/GenCtor.v, hv/translate/ctor_py.py: an object whose fields are unset until assigned, symbolic "
+                 "individuals) and proved to build exactly the deme the machine's sprouting / initial step assumes: requested level and start metaepoch, active, awake, childless, history = the "
+                 "start population only, every stored individual evaluated, evaluation count = individuals evaluated by the deme's own counting problem, the seed's genome in a sprouted engine "
+                 "deme's start population (Proofs/GenEquivCtor.v).")
     g["MANIFEST"] = {"text": text + (" The same for the run() translated from the current sources (code_moment theorems)." if "driver" in front_ends and pid != "C11" else ""),
-                     "note": note + " " + COMMON_NOTE + (DRIVER_NOTE if "driver" in front_ends else "") + (STOPS_NOTE if "stops" in front_ends else "") + (ACCESSORS_NOTE if "accessors" in front_ends else "") + (POPOPS_NOTE if "popops" in front_ends else "") + (OPS_NOTE if "ops" in front_ends else "") + (FILTERS_NOTE if ("levellimit" in front_ends or "demelimit" in front_ends) else ""),
+                     "note": note + " " + COMMON_NOTE + (DRIVER_NOTE if "driver" in front_ends else "") + (STOPS_NOTE if "stops" in front_ends else "") + (ACCESSORS_NOTE if "accessors" in front_ends else "") + (POPOPS_NOTE if "popops" in front_ends else "") + (OPS_NOTE if "ops" in front_ends else "") + (FILTERS_NOTE if ("levellimit" in front_ends or "demelimit" in front_ends) else "") + (CTOR_NOTE if "ctor" in front_ends else ""),
                      "technique": technique + ("; python-ast -> Gallina translation of tree.py and the deme run_metaepoch loops with a machine-checked simulation by the small-step machine" if "driver" in front_ends and pid != "C11" else
                                                "; static population-freshness analysis in the driver translator" if pid == "C11" else "")}
 
